@@ -4,6 +4,11 @@ Check(name, b) == IF b THEN {} ELSE {name}
 Fails(o) ==
   LET s == o.s t == o.t n == o.n IN
      Check("copy", o.copy = s) \cup Check("fill", o.fill = EFill(n, 9))
+     \* the same through pointers and through iterators that are not random access
+     \cup Check("copy(pointers)", o.copyp = s) \cup Check("copy(list)", o.copyl = s)
+     \* an algorithm that returns an iterator returns what its standard counterpart returns: one past the last element written
+     \* (-1: the algorithm returns nothing)
+     \cup UNION {Check("returned-iterator:" \o k, o[k] \in {-1, n}) : k \in {"copyret", "copypret", "copylret", "fillret", "tr1ret", "tr2ret", "genret", "iotaret", "swapret"}}
      \cup Check("transform(unary)", o.tr1 = ETransform1(s)) \cup Check("transform(binary)", o.tr2 = ETransform2(s, t))
      \cup Check("accumulate", o.acc = EAccumulate(s, 5)) \cup (IF o.accop = EAccumulateOp(s, 1) THEN {}
            ELSE IF o.accop = FoldL(LAMBDA a, x : MixOp(x, a), 1, s) THEN {"accumulate(op):folds-op(element,acc)"}
